@@ -292,8 +292,9 @@ class PrettyPrinter:
         return False
 
     def is_complex_type(self, composite: dict, key: str, level: int) -> bool:
-        # symbol needs special treatment
-        if key == "symbol" and level > 0:
+        # symbol needs special treatment - in a STYLE, CLASS or LABEL (also when one
+        # of these is the root of a partial Mapfile) it is a keyword, not a SYMBOL block
+        if key == "symbol" and not self.is_composite(composite[key]):
             return False
         return (
             key in COMPLEX_TYPES
